@@ -120,6 +120,7 @@ type Enc struct {
 	instDone      map[string]bool
 	freshApplied  map[string]bool
 	lockAcq       map[string]int
+	inPureInst    map[string]bool
 }
 
 type Frame struct {
